@@ -102,13 +102,13 @@ def _mk_log_cond_y(kind, Rx, evaluated):
     return ob
 
 
-def _mk_rbf_log_cond_y(Rx, evaluated):
+def _mk_rbf_log_cond_y(Rx, evaluated, kind="rbf"):
     """RBF feature model: y -> E_{p(x)}[ln N(y; Mx x + Mk k(x) + b, Sigma)] from the kernel moments (axiom G1)"""
     from .C16 import gen_feature_cond, kernel_moments
 
     def ob(w):
         xp = w.xp
-        obj, par, Kp = gen_feature_cond(w, "rbf")
+        obj, par, Kp = gen_feature_cond(w, kind)
         p_x, px = SP.gen_pdf(w, "x", Rx, "Dx")
         y = w.arr("y", Rx if Rx != 1 else "Ny", "Dy")
         if evaluated:
@@ -139,6 +139,11 @@ def _register():
                    sorts=(["N"] if Rx != 1 else ["Ny"]) + ["Dx", "Dy", "Dk"],
                    funcs=["approximate_conditional.LRBFGaussianConditional.integrate_log_conditional_y", "approximate_conditional.LRBFGaussianConditional.update_phi"],
                    axioms=AX, tier="quick" if evaluated else "thorough")(_mk_rbf_log_cond_y(Rx, evaluated))
+            REG.ob(f"LSEMGaussianConditional.integrate_log_conditional_y/Rx={Rx}/{'evaluated' if evaluated else 'callable'}",
+                   sorts=(["N"] if Rx != 1 else ["Ny"]) + ["Dx", "Dy", "Dk"],
+                   funcs=["approximate_conditional.LSEMGaussianConditional.integrate_log_conditional_y", "approximate_conditional.LSEMGaussianConditional.update_phi"],
+                   axioms=AX, lemmas=["GtvLemmas.det_rank_one_update"],
+                   tier="quick" if evaluated else "thorough")(_mk_rbf_log_cond_y(Rx, evaluated, "lsem"))
     for fkind in ("general", "rank-one", "linear", "constant", "measure", "pdf"):
         for (Rphi, Rf) in (("R", "R"), ("R", 1), (1, 1), ("R", "R2")):
             for cache in (False, True):
@@ -165,3 +170,7 @@ def _register():
 
 
 _register()
+
+
+from . import condctor as _cc  # noqa: E402
+REG.include(_cc.REG, prefix="ctor")
